@@ -108,6 +108,8 @@ def run(ctx, rep):
         gs = guards_of(m, sw[0])
         rep.check(not any(a in ('ret',) or 'state_sync(' in a for a, p in gs), 'R-C07-4', 'main(sync): the final save does not depend on the result of state_sync', sw[0].loc(), ' && '.join(('' if p else '!') + a for a, p in gs if 'operation' not in a), function='main', construct='final save guard')
 
+    from .C06 import autosave_drain_rule
+    autosave_drain_rule(P, rep, L, 'R-C07-7')
     c = P.fn('state_check_process')
     rep.analysed(c)
     rm = [x for x in c.calls('remove')]
